@@ -126,9 +126,19 @@ def unique (j : Json) : R Json := do
   let lab ← fld j "labels" >>= asList asLbl
   pure (obj [("unique", ofList ofLbl (uniqueFirst lab)), ("inverse", ofList ofNat (inverse lab))])
 
+/-- dataset descriptors of a list of datasets -> merged rdm descriptors -/
+def rdesc (j : Json) : R Json := do
+  let dss ← fld j "dss" >>= asList (asList (fun pr => do
+    match ← asArr pr with
+    | [n, v] => pure ((← asStr n), v)
+    | _ => throw "descriptor must be [name, value]"))
+  pure (ofList (fun col => Json.arr #[Json.str col.1, ofList (ofOpt id) col.2])
+    (mergeRdmDescs dss))
+
 def handle : Handler := fun op j =>
   match op with
   | "c01.unique" => some (unique j)
+  | "c01.rdesc" => some (rdesc j)
   | "c01.calc" => some (withMode j calcOne calcOne)
   | "c01.list" => some (withMode j calcList calcList)
   | "c01.movie" => some (withMode j calcMovieOp calcMovieOp)
